@@ -606,6 +606,8 @@ struct Worker
     std::map<int, std::string> labelnames, knownnames;
     uint64_t next_k = 0; // next index to hand to a restarted worker
     bool finished = false;
+    bool fail_seen = false; // an 'F' record arrived from this incarnation
+    uint64_t fail_k = 0;
 };
 
 static void worker_main(const Opts &o, const Target &t, int widx, uint64_t first_k,
@@ -753,6 +755,7 @@ static void spawn(const Opts &o, const Target &t, Worker &w, int widx, uint64_t 
     w.labelnames.clear();
     w.knownnames.clear();
     w.finished = false;
+    w.fail_seen = false;
 }
 
 static void consume(Worker &w, Stats &st, std::vector<Failure> &fails_out, bool is_enum)
@@ -817,6 +820,8 @@ static void consume(Worker &w, Stats &st, std::vector<Failure> &fails_out, bool 
             f.desc = rest.substr(b + 1);
             f.is_enum = is_enum;
             st.evaluations++;
+            w.fail_seen = true;
+            w.fail_k = f.k;
             fails_out.push_back(f);
         }
         pos += 5 + n;
@@ -895,6 +900,9 @@ static void process_failure(const Opts &o, const Target &t, Stats &st, Failure f
                 f.msg = last.msg;
                 f.kind = last.verdict == 3 ? "crash" : last.verdict == 4 ? "hang" : "fail";
                 f.confirmed = true;
+                for (auto &g : st.failures)
+                    if (g.sig == f.sig)
+                        return;
             }
         }
     }
@@ -1004,9 +1012,9 @@ static void run_campaign(const Opts &o, const Target &t, Stats &st, bool is_enum
                 w.finished = true;
                 continue;
             }
-            if (reported_fail && !pending.empty())
+            if (reported_fail && w.fail_seen)
             {
-                resume_from = pending.back().k + (uint64_t)o.workers;
+                resume_from = w.fail_k + (uint64_t)o.workers;
             }
             else
             {
